@@ -426,7 +426,7 @@ def _firstuse(res, name, fn, inputs, quick):
         return 1, 0
     path = sys.modules[name].__file__
     total = 0
-    for b in inputs[:24 if quick else 60]:
+    for b in inputs[:24 if quick else 30]:
         events = [(name, fn, (inputs[0],), ()), (name, fn, (b,), ())]
         exp = [pristine(e) for e in events]
 
@@ -449,7 +449,7 @@ def _firstuse(res, name, fn, inputs, quick):
                          devclass='firstuse:%s.%s' % (name, fn), rank=[sum(1 for c in taken if c), len(taken), repr(taken)])
             return repr(sorted(results.items()))
         execs, outcomes, capped = e4.explore_schedules(mk, _GlobalsWatch(path, changed), 2, reset, check,
-                                                       max_execs=400 if quick else 1500, watch_module_code=False, horizon=20000)
+                                                       max_execs=400 if quick else 500, watch_module_code=False, horizon=20000)
         if capped:
             res['extra'].setdefault('caps_hit', {})['firstuse:%s' % name] = execs
         total += execs
